@@ -236,6 +236,9 @@ func init() {
 }
 
 func c18Bound(thorough bool, calls int) int {
+	if thorough && calls <= 1 {
+		return 4
+	}
 	if thorough && calls <= 2 {
 		return 3
 	}
